@@ -379,7 +379,7 @@ func (e *ssaEval) instr(fr *frame, ins ssa.Instruction) {
 				set(x, intV(b))
 				return
 			}
-			if a.k == svAddr && strings.HasPrefix(a.s, "list:") {
+			if a.k == svAddr && strings.HasPrefix(a.s, "list:") && !strings.Contains(a.s, ".") {
 				var id string
 				var k int
 				parts := strings.Split(a.s, ":")
@@ -604,7 +604,7 @@ func (e *ssaEval) instr(fr *frame, ins ssa.Instruction) {
 		}
 	case *ssa.Store:
 		a, v := e.val(fr, x.Addr), e.val(fr, x.Val)
-		if a.k == svAddr && strings.HasPrefix(a.s, "list:") {
+		if a.k == svAddr && strings.HasPrefix(a.s, "list:") && !strings.Contains(a.s, ".") {
 			parts := strings.Split(a.s, ":")
 			var k int
 			fmt.Sscan(parts[2], &k)
@@ -876,7 +876,9 @@ func (e *ssaEval) doCall(fr *frame, x *ssa.Call) sv {
 		case "append":
 			if len(args) == 2 && (args[0].k == svList || args[0].k == svNil) {
 				if el, ok := e.elems(args[1]); ok {
-					return e.listAppend(args[0], el)
+					r := e.listAppend(args[0], el)
+					e.effects = append(e.effects, ssaEffect{ins: x, what: "append", args: []sv{args[0], args[1], r}})
+					return r
 				}
 			}
 			if len(args) == 1 && args[0].known() {
